@@ -5,11 +5,11 @@ String and for SqlWriterValues (src/prepare.rs); QueryBuilder::placeholder (defa
 QueryStatementBuilder::{build_any, build_collect_any}, QueryStatementWriter::{to_string, build, build_collect}
 (src/query/traits.rs); the #[inherent] forwards build_collect_any_into / build_collect_into of select / insert /
 update / delete / with; the value-pushing clause renderers prepare_select_limit_offset, prepare_update_limit,
-prepare_delete_limit.
+prepare_delete_limit; prepare_values_list (nested folds) + values_list_tuple_prefix; prepare_field_order (C03 / C01).
 """
 import re
 from vlib import rustlex as rl
-from vlib.gen import make_r_fmt, make_r_sub, make_r_dyn, r_unit_tail, make_r_tailbind
+from vlib.gen import make_r_fmt, make_r_sub, make_r_dyn, r_unit_tail, make_r_tailbind, r_fold
 
 PR = "src/prepare.rs"
 TR = "src/query/traits.rs"
@@ -178,11 +178,16 @@ impl QueryBuilder for %s {
     open spec fn ph(&self) -> Seq<char> { %s }
     open spec fn numbered(&self) -> bool { %s }
     open spec fn spec_id(&self) -> QbSpec { QbSpec { dialect: %d } }
-''' % (ty, ty, "seq!['$']" if ty == "PostgresQueryBuilder" else "seq!['?']", "true" if ty == "PostgresQueryBuilder" else "false", dialect[ty]),
+    // grammar: MySQL 8 spells a row of a VALUES table `ROW(..)`; PostgreSQL and SQLite `(..)`
+    open spec fn row_prefix(&self) -> Seq<char> { %s }
+''' % (ty, ty, "seq!['$']" if ty == "PostgresQueryBuilder" else "seq!['?']", "true" if ty == "PostgresQueryBuilder" else "false", dialect[ty], "seq!['R', 'O', 'W']" if ty == "MysqlQueryBuilder" else "Seq::<char>::empty()"),
                kind="spec", key="writer::%s" % ty, props=P)
         path, blk, how = resolve(u, ty, "placeholder", f)
         u.fn(path, blk, "placeholder", ret="r", props=P, key="%s::placeholder[%s]" % (ty, how), vpath=ty + "::placeholder", no_canary=True,
              proofs={"body-start": 'proof { reveal_strlit("?"); reveal_strlit("$"); assert("?"@ =~= seq![\'?\']); assert("$"@ =~= seq![\'$\']); }'})
+        path, blk, how = resolve(u, ty, "values_list_tuple_prefix", f)
+        u.fn(path, blk, "values_list_tuple_prefix", ret="r", props=["C01", "C02"], key="%s::values_list_tuple_prefix[%s]" % (ty, how), vpath=ty + "::values_list_tuple_prefix", no_canary=True,
+             proofs={"body-start": 'proof { reveal_strlit("ROW"); reveal_strlit(""); assert("ROW"@ =~= seq![\'R\', \'O\', \'W\']); assert(""@ =~= Seq::<char>::empty()); }'})
         path, blk, how = resolve(u, ty, "prepare_value", f)
         u.fn(path, blk, "prepare_value", props=P, rules=[r_dyn, r_unit_tail], key="%s::prepare_value[%s]" % (ty, how), vpath=ty + "::prepare_value", no_canary=True)
         for (st, sf, fn, ops) in STMTS:
@@ -205,6 +210,23 @@ impl QueryBuilder for %s {
                 raise
             u.fn(path, blk, fn, props=["C01"], rules=[r_dyn, r_wfmt], key="%s::%s[%s]" % (ty, fn, how), vpath="%s::%s" % (ty, fn),
                  spec="ensures\n    // the clause's values are pushed once each, in this order, after their keyword\n    " + REL % spec_t)
+        # VALUES list: every cell of every row is bound once, row-major, in call order; the row keyword is the dialect's
+        path, blk, how = resolve(u, ty, "prepare_values_list", f)
+        u.fn(path, blk, "prepare_values_list", props=["C01", "C02"], key="%s::prepare_values_list[%s]" % (ty, how), vpath="%s::prepare_values_list" % ty,
+             rules=[r_dyn, make_r_sub("R-slice", r"value_tuples: &\[ValueTuple\]", "value_tuples: &Vec<ValueTuple>"),
+                    make_r_sub("R-iterimpl", r"([ \t]*)value_tuple\.clone\(\)\.into_iter\(\)\.fold\(", r"\1let vt_vals = vtuple_values(value_tuple);\n\1vt_vals.iter().fold("),
+                    make_r_sub("R-iterimpl", r"self\.prepare_value\(&value, sql\)", "self.prepare_value(value, sql)"),
+                    r_fold, r_wfmt],
+             spec="ensures\n    " + REL % "values_list_ops(self, value_tuples@, value_tuples@.len(), t)",
+             loops=["""invariant
+    it1.index@ <= value_tuples@.len(), first_o == (it1.index@ == 0),
+    forall|t: Seq<Op>, c: Cfg| #[trigger] s0.rel(t, c) ==> sql.rel(values_list_ops(self, value_tuples@, it1.index@ as nat, t), c),""",
+                    """invariant
+    it2.index@ <= vt_vals@.len(), first == (it2.index@ == 0), vt_vals@ == tuple_values(*value_tuple),
+    0 <= it1.index@ < value_tuples@.len(), *value_tuple == value_tuples@[it1.index@ as int],
+    forall|t: Seq<Op>, c: Cfg| #[trigger] s0.rel(t, c) ==> sql.rel(row_ops(self, vt_vals@, it2.index@ as nat,
+        (if it1.index@ == 0 { values_list_ops(self, value_tuples@, 0, t) } else { values_list_ops(self, value_tuples@, it1.index@ as nat, t).push(Op::Text(", "@)) }).push(Op::Text(self.row_prefix())).push(Op::Text("("@))), c),"""],
+             proofs={"body-start": "let ghost s0 = *sql;"})
         # ORDER BY FIELD list: inline literals written through the backend's own value_to_string, nothing bound
         path, blk, how = resolve(u, ty, "prepare_field_order", f)
         u.fn(path, blk, "prepare_field_order", props=["C03", "C01"], rules=[r_dyn, r_wfmt, make_r_sub("R-forghost", r"for value in &values\.0", "for value in it: values.0.iter()")],
